@@ -150,6 +150,9 @@ def _configs(tier):
             for conv in ("plain", "aux"):
                 cfg.append({"kind": kind, "dim": dim, "convention": conv})
     cfg.append({"kind": "softabs", "dim": 1, "convention": "plain"})
+    # the generic RiemannianMetricSystem with a metric class whose parameter is a tuple (block diagonal)
+    cfg.append({"kind": "blockdiag", "dim": 2, "convention": "plain"})
+    cfg.append({"kind": "blockdiag", "dim": 2, "convention": "aux"})
     if th:
         cfg.append({"kind": "softabs", "dim": 1, "convention": "aux"})
     return cfg
@@ -162,7 +165,7 @@ def run_group(rec, probs):
                "constr": S.DenseConstrainedEuclideanMetricSystem, "gauss_constr": S.GaussianDenseConstrainedEuclideanMetricSystem,
                "scalar": S.ScalarRiemannianMetricSystem, "diagonal": S.DiagonalRiemannianMetricSystem,
                "cholesky": S.CholeskyFactoredRiemannianMetricSystem, "dense": S.DenseRiemannianMetricSystem,
-               "softabs": S.SoftAbsRiemannianMetricSystem}[kw["kind"]]
+               "softabs": S.SoftAbsRiemannianMetricSystem, "blockdiag": S.RiemannianMetricSystem}[kw["kind"]]
         rec.encoded(cls, S.RiemannianMetricSystem if kw["kind"] in ("scalar", "diagonal", "cholesky", "dense", "softabs") else cls)
         key = "/".join(f"{k}={v}" for k, v in sorted(kw.items()) if k != "convention")
         run_problem(rec, PROBS[pname], kw, key_prefix=f"{key}:", timeout_ms=60000)
